@@ -164,6 +164,7 @@ def check(ctx):
             ctx.broken("correspondence:rootloop", {"case": meta[i], "coq": cases[i][:1500]})
     oracle(ctx)
     warm_start_probe(ctx)
+    zero_step_probe(ctx)
 
 
 def oracle(ctx):
@@ -487,6 +488,33 @@ def warm_start_probe(ctx):
             if not warned and not r_end <= 1e-12:
                 ctx.fail("oracle", "%s:warm-start:silent-above-tolerance" % fn_name, {"method": nm, "f_tol": 1e-13, "residual_of_the_initial_guess": r_start},
                          {"residual_of_the_result": r_end}, "|f| <= 1e-12 or a ConvergenceWarning")
+
+
+def zero_step_probe(ctx):
+    """a method whose step vanishes exactly at a point that is NOT a root (mixing parameter alpha = 0) does not return that point
+    silently as if it had converged: an error, a ConvergenceWarning, or a residual within the tolerance (round-6 seed C03/16: a zero
+    step set converge = True whatever the residual)"""
+    from xitorch.optimize import rootfinder, equilibrium
+    from xitorch._utils.exceptions import ConvergenceWarning
+    y0 = torch.tensor([0.3, -0.2], dtype=DT)
+    c = torch.tensor([1.0, 0.5], dtype=DT)
+    for fn_name in ("rootfinder", "equilibrium"):
+        for nm in ("linearmixing", "broyden1", "broyden2"):
+            ctx.count(("zero-step", fn_name, nm), nontrivial=True)
+            raised = False
+            with warnings.catch_warnings(record=True) as w:
+                warnings.simplefilter("always")
+                try:
+                    y = rootfinder(lambda y, c: y ** 3 + y - c, y0, params=(c,), method=nm, alpha=0.0, f_tol=1e-9) if fn_name == "rootfinder" \
+                        else equilibrium(lambda y, c: c - y ** 3, y0, params=(c,), method=nm, alpha=0.0, f_tol=1e-9)
+                except Exception:
+                    raised = True
+            warned = any(issubclass(x.category, ConvergenceWarning) or "does not converge" in str(x.message) for x in w)
+            if not raised and not warned:
+                r = float((y ** 3 + y - c).abs().max())
+                if not r <= 1e-8:
+                    ctx.fail("oracle", "%s:zero-step:silent-but-not-converged" % fn_name, {"method": nm, "alpha": 0.0, "f_tol": 1e-9},
+                             {"residual": r, "returned_the_initial_guess": bool(torch.equal(y, y0))}, "an error, a ConvergenceWarning or |f| <= 1e-8")
 
 
 def search(ctx):
